@@ -139,8 +139,9 @@ class Run(object):
         orig_list = cls.expect_list
         orig_exact = cls.expect_exact
 
-        def snap(api, plist, timeout, sws, c0, t0, outcome):
+        def snap(api, plist, timeout, sws, c0, t0, outcome, is_async=False):
             run.calls.append({
+                'async': is_async,
                 'api': api, 'plist': plist, 'timeout': timeout, 'sws': sws,
                 'inst_sws': child.searchwindowsize, 'inst_timeout': child.timeout,
                 'c0': c0, 'c1': len(child.chunks), 't0': t0, 't1': run.w.now,
@@ -178,6 +179,7 @@ class Run(object):
             return r
         child.expect_list = expect_list
         child.expect_exact = expect_exact
+        run.snap_call = snap
 
     # -------------------------------------------------------------- driver
     def conv(self, s):
